@@ -44,14 +44,43 @@ type repoKind struct {
 
 var repoSeq int64
 
+var procTmp string
+
+// tmpBase returns a per-process scratch directory (removed by CleanupTmp).
 func tmpBase() string {
-	if d := os.Getenv("VERIF_TMP"); d != "" {
-		return d
+	if procTmp != "" {
+		return procTmp
 	}
-	if st, err := os.Stat("/dev/shm"); err == nil && st.IsDir() {
-		return "/dev/shm"
+	base := os.Getenv("VERIF_TMP")
+	if base == "" {
+		if st, err := os.Stat("/dev/shm"); err == nil && st.IsDir() {
+			base = "/dev/shm"
+		} else {
+			base = os.TempDir()
+		}
 	}
-	return os.TempDir()
+	d, err := os.MkdirTemp(base, "verif-proc-")
+	if err != nil {
+		panic("cannot create scratch directory: " + err.Error())
+	}
+	procTmp = d
+	return d
+}
+
+// CleanupTmp removes the per-process scratch directory.
+func CleanupTmp() {
+	if procTmp != "" {
+		os.RemoveAll(procTmp)
+		procTmp = ""
+	}
+}
+
+func mustTempDir(tag string) string {
+	d, err := os.MkdirTemp(tmpBase(), "verif-"+tag+"-")
+	if err != nil {
+		panic("cannot create scratch directory: " + err.Error())
+	}
+	return d
 }
 
 func dirState(dir string) string {
@@ -72,10 +101,7 @@ func repoKinds() []repoKind {
 			return r, func() string { return core.Dump(r) }, func() {}
 		}},
 		{name: "filesystem", inits: []string{"empty", "empty-file-A", "header-only-A"}, open: func(init string) (asset.Repository, func() string, func()) {
-			dir, err := os.MkdirTemp(tmpBase(), "verif-c10-")
-			if err != nil {
-				panic(err)
-			}
+			dir := mustTempDir("c10")
 			switch init {
 			case "empty-file-A":
 				os.WriteFile(filepath.Join(dir, "A.csv"), nil, 0o600)
